@@ -2,10 +2,10 @@ import CaddyModel.C18.Spec
 
 namespace CaddyModel.C18
 
-theorem loop_eq_render (inp : Bytes) (env : Env) (m : Mode) (fuel i lwc uc : Nat) (sb : Bytes) :
-    loop inp env m fuel i lwc uc sb =
+theorem loopNC_eq_render (inp : Bytes) (env : Env) (m : Mode) (fuel i lwc uc : Nat) (sb : Bytes) :
+    loopNC inp env m fuel i lwc uc sb =
       render env m (segLoop inp (dom env) m.unknownEmpty m.errUnknown fuel i lwc uc) sb := by
-  fun_induction loop inp env m fuel i lwc uc sb <;> rw [segLoop]
+  fun_induction loopNC inp env m fuel i lwc uc sb <;> rw [segLoop]
   case case14 h hs => rw [if_neg (by omega), hs]; simp only [render]
   case case15 s h hs => rw [if_neg (by omega), hs]; simp only [render]
   all_goals (try simp_all [dom])
@@ -63,6 +63,212 @@ theorem findClose_get {inp : Bytes} {i e : Nat} (h : findClose inp i = .at e) :
     · rename_i e1 h1
       cases h
       exact skipEscaped_get inp inp.length e0 e (indexFrom_get h0) h1
+
+/-! ### which closing brace `findClose` returns
+
+`findClose inp i` is the first closing brace at or behind `i` that the inner loop does not skip as
+escaped (`Skipped`); all closing braces in front of it (from `i` on) are skipped ones. This
+characterisation does not mention where the search started except as a lower bound — hence the
+result is the same for every start between `i` and the brace found (`findClose_mono`), which is
+what makes remembering it (`lastEnd`) sound. -/
+
+/-- the condition of the inner `for`: the closing brace at `e` is passed over -/
+def Skipped (inp : Bytes) (e : Nat) : Prop :=
+  e > 0 ∧ e + 1 < inp.length ∧ inp[e - 1]? = some phEscape
+
+theorem indexOf_first (c : UInt8) : ∀ (l : Bytes) (k : Nat), indexOf c l = some k →
+    ∀ j, j < k → l[j]? ≠ some c
+  | [], k, h => by simp [indexOf] at h
+  | x :: xs, k, h => by
+    unfold indexOf at h
+    split at h
+    · cases h; intro j hj; omega
+    · rename_i hx
+      cases hh : indexOf c xs with
+      | none => simp [hh] at h
+      | some k' =>
+        simp [hh] at h
+        subst h
+        intro j hj
+        cases j with
+        | zero => simpa using hx
+        | succ j => simpa using indexOf_first c xs k' hh j (by omega)
+
+theorem indexOf_exists (c : UInt8) : ∀ (l : Bytes) (k : Nat), l[k]? = some c →
+    ∃ k', indexOf c l = some k' ∧ k' ≤ k
+  | [], k, h => by simp at h
+  | x :: xs, k, h => by
+    unfold indexOf
+    split
+    · exact ⟨0, rfl, Nat.zero_le _⟩
+    · rename_i hx
+      cases k with
+      | zero => simp at h; exact absurd h hx
+      | succ k =>
+        obtain ⟨k', h1, h2⟩ := indexOf_exists c xs k (by simpa using h)
+        exact ⟨k' + 1, by simp [h1], by omega⟩
+
+theorem indexFrom_first {inp : Bytes} {c : UInt8} {i e : Nat} (h : indexFrom inp c i = some e) :
+    ∀ k, i ≤ k → k < e → inp[k]? ≠ some c := by
+  unfold indexFrom at h
+  cases hh : indexOf c (inp.drop i) with
+  | none => simp [hh] at h
+  | some k0 =>
+    simp [hh] at h
+    subst h
+    intro k hik hk
+    have := indexOf_first c _ k0 hh (k - i) (by omega)
+    rw [List.getElem?_drop] at this
+    have e1 : i + (k - i) = k := by omega
+    rwa [e1] at this
+
+theorem indexFrom_exists {inp : Bytes} {c : UInt8} {i k : Nat} (hik : i ≤ k) (h : inp[k]? = some c) :
+    ∃ e, indexFrom inp c i = some e ∧ e ≤ k := by
+  have h' : (inp.drop i)[k - i]? = some c := by
+    rw [List.getElem?_drop]
+    have e1 : i + (k - i) = k := by omega
+    rwa [e1]
+  obtain ⟨k', h1, h2⟩ := indexOf_exists c _ _ h'
+  exact ⟨k' + i, by simp [indexFrom, h1], by omega⟩
+
+/-- the inner loop stops at a brace that is not skipped, having passed over skipped ones only
+    (`inp.length` iterations are always enough: every iteration moves `e` forward) -/
+theorem skipEscaped_sound (inp : Bytes) : ∀ (fuel e e' : Nat), inp.length ≤ fuel + e → e < inp.length →
+    skipEscaped inp fuel e = some e' →
+    ¬ Skipped inp e' ∧ ∀ k, e ≤ k → k < e' → inp[k]? = some phClose → Skipped inp k
+  | 0, e, e', hf, he, _ => by omega
+  | fuel + 1, e, e', hf, he, h => by
+    unfold skipEscaped at h
+    split at h
+    · rename_i hsk
+      split at h
+      · cases h
+      · rename_i e1 hi
+        have hb := indexFrom_bounds hi
+        obtain ⟨h1, h2⟩ := skipEscaped_sound inp fuel e1 e' (by omega) hb.2 h
+        refine ⟨h1, fun k hk1 hk2 hk => ?_⟩
+        by_cases hke : k = e
+        · subst hke; exact hsk
+        · by_cases hk1' : k < e1
+          · exact absurd hk (indexFrom_first hi k (by omega) hk1')
+          · exact h2 k (by omega) hk2 hk
+    · rename_i hsk
+      simp at h; subst h
+      exact ⟨hsk, fun k hk1 hk2 => by omega⟩
+
+theorem skipEscaped_complete (inp : Bytes) : ∀ (fuel e0 e : Nat), e - e0 < fuel → e0 ≤ e →
+    inp[e0]? = some phClose → inp[e]? = some phClose → ¬ Skipped inp e →
+    (∀ k, e0 ≤ k → k < e → inp[k]? = some phClose → Skipped inp k) →
+    skipEscaped inp fuel e0 = some e
+  | 0, e0, e, hf, _, _, _, _, _ => by omega
+  | fuel + 1, e0, e, hf, hle, h0, he, hns, hall => by
+    unfold skipEscaped
+    split
+    · rename_i hsk
+      have hlt : e0 < e := by
+        rcases Nat.lt_or_ge e0 e with h | h
+        · exact h
+        · have : e0 = e := by omega
+          subst this; exact absurd hsk hns
+      obtain ⟨e1, hi, hle1⟩ := indexFrom_exists (i := e0 + 1) (by omega) he
+      have hb := indexFrom_bounds hi
+      simp only [hi]
+      exact skipEscaped_complete inp fuel e1 e (by omega) hle1 (indexFrom_get hi) he hns
+        (fun k hk1 hk2 hk => hall k (by omega) hk2 hk)
+    · rename_i hsk
+      rcases Nat.lt_or_ge e0 e with h | h
+      · exact absurd (hall e0 (Nat.le_refl _) h h0) hsk
+      · have : e0 = e := by omega
+        subst this; rfl
+
+/-- **what `findClose` finds**: the first closing brace at or behind `i` that is not skipped as escaped -/
+theorem findClose_at_iff (inp : Bytes) (i e : Nat) :
+    findClose inp i = .at e ↔
+      (i ≤ e ∧ inp[e]? = some phClose ∧ ¬ Skipped inp e ∧
+        ∀ k, i ≤ k → k < e → inp[k]? = some phClose → Skipped inp k) := by
+  constructor
+  · intro h
+    have hb := findClose_bounds h
+    have hg := findClose_get h
+    unfold findClose at h
+    split at h
+    · cases h
+    · rename_i e0 h0
+      split at h
+      · cases h
+      · rename_i e1 h1
+        cases h
+        have hb0 := indexFrom_bounds h0
+        obtain ⟨h2, h3⟩ := skipEscaped_sound inp inp.length e0 e (by omega) hb0.2 h1
+        refine ⟨hb.1, hg, h2, fun k hk1 hk2 hk => ?_⟩
+        by_cases hk0 : k < e0
+        · exact absurd hk (indexFrom_first h0 k hk1 hk0)
+        · exact h3 k (by omega) hk2 hk
+  · rintro ⟨hle, hg, hns, hall⟩
+    obtain ⟨e0, h0, hle0⟩ := indexFrom_exists hle hg
+    have hb0 := indexFrom_bounds h0
+    have hlen : e < inp.length := by
+      rcases Nat.lt_or_ge e inp.length with h | h
+      · exact h
+      · rw [List.getElem?_eq_none h] at hg; cases hg
+    unfold findClose
+    simp only [h0]
+    rw [skipEscaped_complete inp inp.length e0 e (by omega) hle0 (indexFrom_get h0) hg hns
+      (fun k hk1 hk2 hk => hall k (by omega) hk2 hk)]
+
+/-- **the search result does not depend on where between the opener and the brace it starts** -/
+theorem findClose_mono {inp : Bytes} {i e j : Nat} (h : findClose inp i = .at e) (hij : i ≤ j) (hje : j < e) :
+    findClose inp j = .at e := by
+  obtain ⟨_, hg, hns, hall⟩ := (findClose_at_iff inp i e).mp h
+  exact (findClose_at_iff inp j e).mpr ⟨by omega, hg, hns, fun k hk1 hk2 hk => hall k (by omega) hk2 hk⟩
+
+/-! ### the remembered closing brace changes nothing -/
+
+theorem CacheOK.step {inp : Bytes} {i ce : Nat} (h : CacheOK inp i ce) : CacheOK inp (i + 1) ce :=
+  fun j hj1 hj2 => h j (by omega) hj2
+
+theorem CacheOK.fresh (inp : Bytes) (e : Nat) : CacheOK inp (e + 1) e :=
+  fun j hj1 hj2 => by omega
+
+theorem CacheOK.of_findClose {inp : Bytes} {i e : Nat} (h : findClose inp i = .at e) : CacheOK inp (i + 1) e :=
+  fun j hj1 hj2 => findClose_mono h (by omega) hj2
+
+theorem CacheOK.init (inp : Bytes) : CacheOK inp 0 0 := fun j _ hj => by omega
+
+/-- with a sound cache, looking the brace up in it is the search -/
+theorem closeAt_eq_findClose {inp : Bytes} {i ce : Nat} (h : CacheOK inp i ce) :
+    closeAt inp i ce = findClose inp i := by
+  unfold closeAt
+  split
+  · rename_i hgt; exact (h i (Nat.le_refl _) hgt).symm
+  · rfl
+
+/-- whatever `closeAt` answers is a sound cache for the next iteration -/
+theorem CacheOK.next {inp : Bytes} {i ce e : Nat} (h : CacheOK inp i ce) (hc : closeAt inp i ce = .at e) :
+    CacheOK inp (i + 1) e := by
+  rw [closeAt_eq_findClose h] at hc
+  exact CacheOK.of_findClose hc
+
+/-- **the close cache is transparent**: the loop with `lastEnd` computes what the loop that searches
+    for the closing brace at every opener computes -/
+theorem loop_eq_loopNC (inp : Bytes) (env : Env) (m : Mode) (fuel i lwc uc ce : Nat) (sb : Bytes)
+    (hc : CacheOK inp i ce) :
+    loop inp env m fuel i lwc uc ce sb = loopNC inp env m fuel i lwc uc sb := by
+  revert ce
+  fun_induction loopNC inp env m fuel i lwc uc sb <;> intro ce hc <;> rw [loop] <;>
+    (try rw [closeAt_eq_findClose hc]) <;> (try have hs := hc.step) <;>
+    (try have ho := CacheOK.of_findClose (by assumption)) <;>
+    simp_all
+  all_goals (try (intro hgt; omega))
+  all_goals (try rw [if_neg (by omega)])
+  all_goals (try (split <;> (try split) <;> simp_all))
+  all_goals (apply_assumption; exact CacheOK.fresh inp _)
+
+theorem loop_eq_render (inp : Bytes) (env : Env) (m : Mode) (fuel i lwc uc ce : Nat) (sb : Bytes)
+    (hc : CacheOK inp i ce) :
+    loop inp env m fuel i lwc uc ce sb =
+      render env m (segLoop inp (dom env) m.unknownEmpty m.errUnknown fuel i lwc uc) sb := by
+  rw [loop_eq_loopNC inp env m fuel i lwc uc ce sb hc, loopNC_eq_render]
 
 /-! ### the loop never panics -/
 
